@@ -36,7 +36,7 @@ def search(expand, cfg, max_depth, init_hist=(), init_key='<init>', merge=True, 
             return out
 
         nxt = {}
-        for part in runner.pmap(work, frontier, cfg, chunk=chunk):
+        for part in runner.pmap(work, frontier, cfg, chunk=chunk, inline_below=6):
             succ = part.pop('succ')
             runner.merge_counts(total, part)
             for h, key in succ:
